@@ -179,34 +179,46 @@ Section Blocks.
   Qed.
 
   (* a follower file that is a prefix of the leader's: every block inside it matches *)
-  Lemma matchb_prefix : forall (f rest : file) pos,
-    0 <= pos -> pos + csz <= flen f ->
-    matchb digest md5 digest_eqb csz (fbytes f) (flen f) (fbytes (f ++ rest)) (flen (f ++ rest)) pos = true.
+  Lemma matchbs_prefix : forall (f rest : file) pos size,
+    0 <= pos -> 0 <= size -> pos + size <= flen f ->
+    matchbs digest md5 digest_eqb (fbytes f) (flen f) (fbytes (f ++ rest)) (flen (f ++ rest)) pos size = true.
   Proof.
-    intros f rest pos Hp Hle. unfold matchb.
+    intros f rest pos size Hp Hs Hle. unfold matchbs.
     rewrite fbytes_app. rewrite flen_spec in Hle.
-    destruct (block_prefix (fbytes f) (fbytes rest) (flen (f ++ rest)) pos csz) as [E1 N1]; try lia.
+    destruct (block_prefix (fbytes f) (fbytes rest) (flen (f ++ rest)) pos size) as [E1 N1]; try lia.
     { rewrite flen_app, flen_spec. pose proof (flen_nonneg rest). lia. }
     rewrite E1. rewrite flen_spec.
-    destruct (block (fbytes f) (blen (fbytes f)) pos csz) as [x|] eqn:B; [|congruence].
+    destruct (block (fbytes f) (blen (fbytes f)) pos size) as [x|] eqn:B; [|congruence].
     apply digest_eqb_spec. reflexivity.
   Qed.
 
+  Lemma matchb_prefix : forall (f rest : file) pos,
+    0 <= pos -> pos + csz <= flen f ->
+    matchb digest md5 digest_eqb csz (fbytes f) (flen f) (fbytes (f ++ rest)) (flen (f ++ rest)) pos = true.
+  Proof. intros. unfold matchb. apply matchbs_prefix; lia. Qed.
+
   (* a matching probe: both sides have the whole block and the blocks are equal byte strings *)
-  Lemma matchb_true : forall fb fsz lb lsz pos,
-    0 <= pos ->
-    matchb digest md5 digest_eqb csz fb fsz lb lsz pos = true ->
-    pos + csz <= fsz /\ pos + csz <= blen fb /\ pos + csz <= lsz /\ pos + csz <= blen lb /\
-    firstn (Z.to_nat csz) (skipn (Z.to_nat pos) fb) = firstn (Z.to_nat csz) (skipn (Z.to_nat pos) lb).
+  Lemma matchbs_true : forall fb fsz lb lsz pos size,
+    0 <= pos -> 0 <= size ->
+    matchbs digest md5 digest_eqb fb fsz lb lsz pos size = true ->
+    pos + size <= fsz /\ pos + size <= blen fb /\ pos + size <= lsz /\ pos + size <= blen lb /\
+    firstn (Z.to_nat size) (skipn (Z.to_nat pos) fb) = firstn (Z.to_nat size) (skipn (Z.to_nat pos) lb).
   Proof.
-    intros fb fsz lb lsz pos Hp H. unfold matchb in H.
-    destruct (block fb fsz pos csz) as [x|] eqn:B1; [|discriminate].
-    destruct (block lb lsz pos csz) as [y|] eqn:B2; [|discriminate].
+    intros fb fsz lb lsz pos size Hp Hs H. unfold matchbs in H.
+    destruct (block fb fsz pos size) as [x|] eqn:B1; [|discriminate].
+    destruct (block lb lsz pos size) as [y|] eqn:B2; [|discriminate].
     apply block_some in B1; try lia. apply block_some in B2; try lia.
     destruct B1 as (? & ? & -> & L1). destruct B2 as (? & ? & -> & L2).
     apply digest_eqb_spec in H. apply md5_inj in H; [|congruence].
     repeat split; try lia. exact H.
   Qed.
+
+  Lemma matchb_true : forall fb fsz lb lsz pos,
+    0 <= pos ->
+    matchb digest md5 digest_eqb csz fb fsz lb lsz pos = true ->
+    pos + csz <= fsz /\ pos + csz <= blen fb /\ pos + csz <= lsz /\ pos + csz <= blen lb /\
+    firstn (Z.to_nat csz) (skipn (Z.to_nat pos) fb) = firstn (Z.to_nat csz) (skipn (Z.to_nat pos) lb).
+  Proof. intros fb fsz lb lsz pos Hp H. unfold matchb in H. apply matchbs_true in H; auto. lia. Qed.
 End Blocks.
 
 (* ------------------------------------------------------------------ *)
@@ -304,9 +316,28 @@ Section Protocol.
   Lemma replay_snoc : forall f r, replay (f ++ [r]) = fst (app r (replay f)).
   Proof. intros. unfold Follow.replay, replay_from. now rewrite fold_left_app. Qed.
 
-  (* search soundness, independent of what the files are: a positive result means the first block
-     and the block that ends at the search position are byte-for-byte equal in both files *)
-  Lemma check_some_sound : forall md f fsz l res probes pos,
+  Notation matchbs := (matchbs digest md5 digest_eqb).
+
+  (* ---------------- the check ---------------- *)
+  (* termination for all sizes, all modes *)
+  Lemma check_some_no_fuel : forall md f fsz l, fst (check_some md f fsz l) <> CSFuel.
+  Proof.
+    clear st0 app; clear st.
+    intros md f fsz l. unfold Follow.check_some.
+    destruct (fsz <? csz) eqn:E0; [discriminate|].
+    set (m := matchb (fbytes f) fsz (fbytes l) (flen l)).
+    destruct (negb (m 0)); [discriminate|].
+    destruct (search_loop csz (search_fuel csz fsz) m csz (fsz - csz) fsz [(0, csz, true)]) as [[q pr]|] eqn:S.
+    - destruct (last_value_end f 0 0 q) as [[p k]|]; [|discriminate].
+      destruct md; cbv beta iota zeta;
+        try (destruct (matchbs (fbytes f) fsz (fbytes l) (flen l) 0 p); [|discriminate]);
+        match goal with |- context [if ?c then _ else _] => destruct c end; discriminate.
+    - exfalso. revert S. apply search_loop_terminates; try lia. apply search_fuel_enough; lia.
+  Qed.
+
+  (* what the search alone establishes, in every mode and for ANY two files: a position > 0 means the
+     first block and the block that ends at the search position q are byte-equal in both files *)
+  Lemma check_some_probed : forall md f fsz l res probes pos,
     check_some md f fsz l = (res, probes) ->
     (res = CSIntact pos \/ exists k, res = CSTruncate pos k) ->
     exists q, csz <= q <= pos /\ q <= fsz /\
@@ -321,7 +352,7 @@ Section Protocol.
     set (m := matchb (fbytes f) fsz (fbytes l) (flen l)) in *.
     destruct (m 0) eqn:M0; cbn [negb] in H.
     2:{ inversion H; subst. destruct Hres as [?|[? ?]]; discriminate. }
-    destruct (search_loop csz (search_fuel csz fsz) m csz (fsz - csz) fsz [(0, true)]) as [[q pr]|] eqn:S.
+    destruct (search_loop csz (search_fuel csz fsz) m csz (fsz - csz) fsz [(0, csz, true)]) as [[q pr]|] eqn:S.
     2:{ inversion H; subst. destruct Hres as [?|[? ?]]; discriminate. }
     assert (Hle : csz <= fsz) by lia.
     pose proof (search_loop_bounds csz Hcsz _ _ _ _ _ _ _ _ Hle S) as Hb.
@@ -330,7 +361,10 @@ Section Protocol.
     2:{ inversion H; subst. destruct Hres as [?|[? ?]]; discriminate. }
     apply lve_spec in L. destruct L as (j & -> & Hj & -> & Hq).
     assert (Hpos : pos = 0 + flen (firstn j f)).
-    { destruct ((0 + flen (firstn j f) =? q) && match md with Repaired => q =? fsz | Pinned => true end) eqn:C;
+    { destruct md; cbv beta iota zeta in H;
+        try (destruct (matchbs (fbytes f) fsz (fbytes l) (flen l) 0 (0 + flen (firstn j f)));
+             [|inversion H; subst; destruct Hres as [Hr|[k Hr]]; discriminate]);
+        match type of H with context [if ?c then _ else _] => destruct c eqn:C end;
         inversion H; subst; destruct Hres as [Hr|[k Hr]]; inversion Hr; subst; lia. }
     exists q. subst pos. repeat split; try lia.
     - apply (matchb_true digest md5 digest_eqb digest_eqb_spec md5_inj csz Hcsz) in M0; [|lia].
@@ -343,24 +377,43 @@ Section Protocol.
         destruct Hs as (_ & _ & _ & _ & E). exact E.
   Qed.
 
-  (* termination for all sizes *)
-  Lemma check_some_no_fuel : forall md f fsz l, fst (check_some md f fsz l) <> CSFuel.
+  (* the repaired check on a follower whose aofsz is the size of its file, against ANY leader log:
+     it starts over, or it keeps the first k records of the follower's file (all of them when
+     "intact") and the two FILES AGREE BYTE FOR BYTE UP TO THE RESUME POSITION; it never errs *)
+  Lemma check_some_outcomes : forall f l res pr,
+    check_some Repaired f (flen f) l = (res, pr) ->
+    res = CSStartOverSmall \/ res = CSStartOver \/
+    exists k, (k <= length f)%nat /\
+      firstn (Z.to_nat (flen (firstn k f))) (fbytes f) = firstn (Z.to_nat (flen (firstn k f))) (fbytes l) /\
+      flen (firstn k f) <= blen (fbytes l) /\
+      (res = CSTruncate (flen (firstn k f)) k \/ (res = CSIntact (flen f) /\ flen (firstn k f) = flen f)).
   Proof.
     clear st0 app; clear st.
-    intros md f fsz l. unfold Follow.check_some.
-    destruct (fsz <? csz) eqn:E0; [discriminate|].
-    set (m := matchb (fbytes f) fsz (fbytes l) (flen l)).
-    destruct (negb (m 0)); [discriminate|].
-    destruct (search_loop csz (search_fuel csz fsz) m csz (fsz - csz) fsz [(0, true)]) as [[q pr]|] eqn:S.
-    - destruct (last_value_end f 0 0 q) as [[p k]|]; [|discriminate].
-      destruct ((p =? q) && match md with Repaired => q =? fsz | Pinned => true end); discriminate.
-    - exfalso. revert S. apply search_loop_terminates; try lia. apply search_fuel_enough; lia.
+    intros f l res pr H. unfold Follow.check_some in H.
+    destruct (flen f <? csz) eqn:E0; [left; now inversion H|].
+    set (m := matchb (fbytes f) (flen f) (fbytes l) (flen l)) in *.
+    destruct (m 0) eqn:M0; cbn [negb] in H; [|right; left; now inversion H].
+    destruct (search_loop csz (search_fuel csz (flen f)) m csz (flen f - csz) (flen f) [(0, csz, true)]) as [[q pr0]|] eqn:S.
+    2:{ exfalso. revert S. apply search_loop_terminates; try lia. apply search_fuel_enough; lia. }
+    assert (Hle : csz <= flen f) by lia.
+    pose proof (search_loop_bounds csz Hcsz _ _ _ _ _ _ _ _ Hle S) as Hb.
+    assert (Hq0 : 0 < q <= 0 + flen f) by lia.
+    destruct (lve_total f 0 0%nat q Hq0) as (p & k & L). rewrite L in H.
+    apply lve_spec in L. destruct L as (j & -> & Hj & -> & Hq). cbn [Nat.add] in H.
+    replace (0 + flen (firstn j f)) with (flen (firstn j f)) in * by lia.
+    pose proof (flen_nonneg (firstn j f)) as Hnn.
+    destruct (matchbs (fbytes f) (flen f) (fbytes l) (flen l) 0 (flen (firstn j f))) eqn:Wh;
+      [|right; left; now inversion H].
+    apply (matchbs_true digest md5 digest_eqb digest_eqb_spec md5_inj) in Wh; try lia.
+    destruct Wh as (_ & _ & _ & Hlb & E). cbn [Z.to_nat skipn] in E.
+    right; right. exists j. split; [lia|]. split; [exact E|]. split; [lia|].
+    destruct ((flen (firstn j f) =? q) && (q =? flen f)) eqn:C; inversion H; subst.
+    - right. split; [f_equal; lia | lia].
+    - left. reflexivity.
   Qed.
 
-
-  (* a follower file that is a record-boundary prefix of the leader's log and at least one block
-     long: the repaired check keeps a record-boundary prefix of it (possibly all of it) and resumes
-     exactly at the end of what it keeps; it never starts over and never fails *)
+  (* a follower file that is a record-boundary prefix of the leader's log, at least one block long:
+     the repaired check never starts over *)
   Lemma check_some_prefix : forall f rest,
     csz <= flen f ->
     exists k, (k <= length f)%nat /\
@@ -372,16 +425,88 @@ Section Protocol.
     replace (flen f <? csz) with false by lia.
     rewrite (matchb_prefix digest md5 digest_eqb digest_eqb_spec md5_inj csz Hcsz f rest 0) by lia. cbn [negb].
     set (m := matchb (fbytes f) (flen f) (fbytes (f ++ rest)) (flen (f ++ rest))).
-    destruct (search_loop csz (search_fuel csz (flen f)) m csz (flen f - csz) (flen f) [(0, true)]) as [[q pr]|] eqn:S.
+    destruct (search_loop csz (search_fuel csz (flen f)) m csz (flen f - csz) (flen f) [(0, csz, true)]) as [[q pr]|] eqn:S.
     2:{ exfalso. revert S. apply search_loop_terminates; try lia. apply search_fuel_enough; lia. }
     pose proof (search_loop_bounds csz Hcsz _ _ _ _ _ _ _ _ Hlen S) as Hb.
     assert (Hq0 : 0 < q <= 0 + flen f) by lia.
     destruct (lve_total f 0 0%nat q Hq0) as (p & k & L). rewrite L.
     apply lve_spec in L. destruct L as (j & -> & Hj & -> & Hq). cbn [Nat.add].
+    pose proof (flen_nonneg (firstn j f)) as Hnn. pose proof (flen_firstn_le j f) as Hfl.
+    rewrite (matchbs_prefix digest md5 digest_eqb digest_eqb_spec md5_inj f rest 0 (0 + flen (firstn j f))) by lia.
     exists j. split; [lia|].
     destruct ((0 + flen (firstn j f) =? q) && (q =? flen f)) eqn:C; cbn [fst].
     - right. f_equal; lia.
     - left. f_equal; lia.
+  Qed.
+
+  (* ... and when it is at least two blocks long the check returns exactly its size: nothing is cut *)
+  Lemma check_some_prefix_exact : forall f rest,
+    2 * csz <= flen f ->
+    fst (check_some Repaired f (flen f) (f ++ rest)) = CSIntact (flen f).
+  Proof.
+    clear st0 app; clear st.
+    intros f rest Hlen. unfold Follow.check_some.
+    replace (flen f <? csz) with false by lia.
+    rewrite (matchb_prefix digest md5 digest_eqb digest_eqb_spec md5_inj csz Hcsz f rest 0) by lia. cbn [negb].
+    unfold search_fuel. cbn [search_loop].
+    replace ((flen f - csz <? csz) || (flen f <? flen f - csz + csz)) with false by lia.
+    rewrite (matchb_prefix digest md5 digest_eqb digest_eqb_spec md5_inj csz Hcsz f rest (flen f - csz)) by lia.
+    replace (flen f - csz + csz) with (flen f) by lia.
+    replace (flen f - flen f) with 0 by lia. change (Z.quot 0 2) with 0.
+    assert (Hq2 : 0 <= Z.quot csz 2) by (apply Z.quot_pos; lia).
+    replace ((0 - Z.quot csz 2 + flen f <? flen f) || (flen f <? 0 - Z.quot csz 2 + flen f + csz)) with true by lia.
+    assert (Hq0 : 0 < flen f <= 0 + flen f) by lia.
+    destruct (lve_total f 0 0%nat (flen f) Hq0) as (p & k & L). rewrite L.
+    apply lve_spec in L. destruct L as (j & -> & Hj & -> & Hq).
+    pose proof (flen_firstn_le j f) as Hfl.
+    rewrite (matchbs_prefix digest md5 digest_eqb digest_eqb_spec md5_inj f rest 0 (0 + flen (firstn j f))) by lia.
+    replace ((0 + flen (firstn j f) =? flen f) && (flen f =? flen f)) with true by lia.
+    reflexivity.
+  Qed.
+
+  (* ---------------- records are self-delimiting ---------------- *)
+  (* RESP frames are prefix free: trusted (okrec = "is the RESP encoding of a command") *)
+  Variable okrec : record -> Prop.
+  Hypothesis okrec_prefix_free : forall a b x y, okrec a -> okrec b -> a ++ x = b ++ y -> a = b.
+
+  Definition oklog (l : file) : Prop := Forall okrec l /\ wf_log l.
+
+  Lemma oklog_app : forall a b, oklog (a ++ b) <-> oklog a /\ oklog b.
+  Proof. intros. unfold oklog. rewrite Forall_app, wf_log_app. tauto. Qed.
+
+  (* equal bytes => equal records: a log whose bytes start with the bytes of the record list a starts
+     with the records a *)
+  Lemma records_of_bytes : forall a l tb,
+    oklog a -> oklog l -> fbytes l = fbytes a ++ tb -> exists rest, l = a ++ rest.
+  Proof.
+    induction a as [|r a IH]; intros l tb Ha Hl E; [exists l; reflexivity|].
+    destruct Ha as [Ha1 Ha2]. inversion Ha1; subst. inversion Ha2; subst.
+    destruct l as [|b l].
+    - cbn in E. symmetry in E. apply app_eq_nil in E. destruct E as [E _].
+      apply app_eq_nil in E. destruct E as [-> _]. cbn in *. lia.
+    - destruct Hl as [Hl1 Hl2]. inversion Hl1; subst. inversion Hl2; subst.
+      cbn [fbytes concat] in E. fold (fbytes l) in E. fold (fbytes a) in E. rewrite <- app_assoc in E.
+      assert (b = r) by (eapply okrec_prefix_free; eauto). subst b.
+      apply app_inv_head in E.
+      destruct (IH l tb) as [rest ->]; [split; assumption | split; assumption | exact E |].
+      exists rest. reflexivity.
+  Qed.
+
+  Lemma flen_zero_nil : forall x, wf_log x -> flen x = 0 -> x = [].
+  Proof.
+    intros [|r x] W H; [reflexivity|]. inversion W; subst. rewrite flen_cons in H.
+    pose proof (flen_nonneg x). lia.
+  Qed.
+
+  Lemma agree_bytes : forall a b lb,
+    firstn (Z.to_nat (flen a)) (fbytes (a ++ b)) = firstn (Z.to_nat (flen a)) lb ->
+    exists tb, lb = fbytes a ++ tb.
+  Proof.
+    intros a b lb E. exists (skipn (Z.to_nat (flen a)) lb).
+    assert (H : fbytes a = firstn (Z.to_nat (flen a)) lb).
+    { rewrite <- E. rewrite fbytes_app. rewrite flen_spec, blen_spec, Nat2Z.id.
+      rewrite firstn_app, firstn_all, Nat.sub_diag. cbn [firstn]. now rewrite app_nil_r. }
+    rewrite H. symmetry. apply firstn_skipn.
   Qed.
 
   (* ---------------- the protocol invariant ---------------- *)
@@ -390,6 +515,11 @@ Section Protocol.
   Definition upd_ok (l : file) : Prop :=
     forall pre r post, l = pre ++ r :: post -> snd (app r (replay pre)) = true.
 
+  (* a follower as it exists between sessions: its dataset is what its own log replays to (loadAOF),
+     aofsz is the size of that log, the log consists of well-framed records.  Its CONTENT is arbitrary. *)
+  Definition wf_fol (f : fol) : Prop :=
+    f_mem f = replay (f_file f) /\ f_aofsz f = flen (f_file f) /\ oklog (f_file f).
+
   Definition synced (l : file) (f : fol) : Prop :=
     f_mem f = replay (f_file f) /\ f_aofsz f = flen (f_file f) /\
     match f_ses f with
@@ -397,16 +527,8 @@ Section Protocol.
     | Some s => l = f_file f ++ s_rest s /\ f_cup f = s_cu s /\ (s_cu s = true -> s_aofsize s <= f_aofsz f)
     end.
 
-  Definition inv (l : file) (f : fol) : Prop := upd_ok l /\ wf_log l /\ (f_ses f = None \/ synced l f).
-
-  (* what is required of the follower at the moment it (re)connects: its file is a true
-     record-boundary prefix of the leader's log (and its memory is what that file replays to), or
-     the check decides to start over (small file, or the first block differs).  Excluded: a file
-     that is NOT a prefix but whose probed blocks all match (the "check some" blind spot). *)
-  Definition prefix_cond (l : file) (f : fol) : Prop :=
-    exists rest, l = f_file f ++ rest /\ f_mem f = replay (f_file f) /\ f_aofsz f = flen (f_file f).
-  Definition startover_cond (l : file) (f : fol) : Prop :=
-    f_aofsz f < csz \/ matchb (fbytes (f_file f)) (f_aofsz f) (fbytes l) (flen l) 0 = false.
+  Definition inv (l : file) (f : fol) : Prop :=
+    upd_ok l /\ oklog l /\ wf_fol f /\ (f_ses f = None \/ synced l f).
 
   Lemma drop_bytes_0 : forall l, drop_bytes l 0 = Some l.
   Proof. destruct l; reflexivity. Qed.
@@ -414,48 +536,46 @@ Section Protocol.
   Lemma replay_nil : replay [] = st0.
   Proof. reflexivity. Qed.
 
-  Lemma connect_startover : forall l f res pr,
-    check_some Repaired (f_file f) (f_aofsz f) l = (res, pr) ->
-    res = CSStartOverSmall \/ res = CSStartOver ->
-    synced l (connect Repaired l f) /\
-    exists s, f_ses (connect Repaired l f) = Some s /\ s_aofsize s = flen l.
-  Proof.
-    intros l f res pr C Hres. unfold Follow.connect, begin_connect. cbn [f_file f_mem f_aofsz f_once f_broken f_cup]. rewrite C.
-    destruct Hres as [-> | ->]; rewrite drop_bytes_0; cbn.
-    all: split; [unfold synced; cbn; repeat split; auto; intros; lia | eexists; split; reflexivity].
-  Qed.
+  Lemma oklog_nil : oklog [].
+  Proof. split; constructor. Qed.
 
+  (* a (re)connect of the repaired follower, whatever its log contains: afterwards the follower is in
+     step with the leader (its file is a record prefix of the leader's log, the stream is the rest) *)
   Lemma connect_synced : forall l f,
-    wf_log l -> prefix_cond l f \/ startover_cond l f ->
-    synced l (connect Repaired l f) /\
+    oklog l -> wf_fol f ->
+    synced l (connect Repaired l f) /\ wf_fol (connect Repaired l f) /\
     exists s, f_ses (connect Repaired l f) = Some s /\ s_aofsize s = flen l.
   Proof.
-    intros l f W H.
+    intros l f Hl (Hm & Hsz & Hf).
     destruct (check_some Repaired (f_file f) (f_aofsz f) l) as [res pr] eqn:C.
-    destruct (f_aofsz f <? csz) eqn:E0.
-    { apply (connect_startover l f res pr C). left.
-      unfold Follow.check_some in C. rewrite E0 in C. now inversion C. }
-    destruct H as [(rest & Hl & Hm & Hsz) | [Hs | Hs]]; [| lia |].
-    2:{ apply (connect_startover l f res pr C). right.
-        unfold Follow.check_some in C. rewrite E0 in C. unfold startover_cond in Hs.
-        rewrite Hs in C. cbn [negb] in C. now inversion C. }
-    destruct (check_some_prefix (f_file f) rest ltac:(lia)) as (k & Hk & Hres).
-    rewrite <- Hsz, <- Hl, C in Hres. cbn [fst] in Hres.
+    pose proof C as C'. rewrite Hsz in C'. apply check_some_outcomes in C'.
     unfold Follow.connect, begin_connect. cbn [f_file f_mem f_aofsz f_once f_broken f_cup]. rewrite C.
-    destruct Hres as [-> | ->].
-    - set (fl := firstn k (f_file f)).
-      assert (Hl' : l = fl ++ (skipn k (f_file f) ++ rest)).
-      { rewrite app_assoc. unfold fl. now rewrite firstn_skipn. }
-      assert (Wfl : wf_log fl). { rewrite Hl' in W. apply wf_log_app in W. tauto. }
-      assert (D : drop_bytes l (flen fl) = Some (skipn k (f_file f) ++ rest))
-        by (rewrite Hl'; apply drop_bytes_app; exact Wfl).
+    assert (Hstart : forall fo : fol, f_once fo = f_once fo -> True) by auto.
+    destruct C' as [-> | [-> | (k & Hk & E & Hlb & Hres)]].
+    1,2: rewrite drop_bytes_0; cbn;
+      (split; [unfold synced; cbn; repeat split; auto; intros; lia |
+               split; [unfold wf_fol; cbn; repeat split; auto; apply oklog_nil | eexists; split; reflexivity]]).
+    set (fl := firstn k (f_file f)) in *.
+    assert (Hfile : f_file f = fl ++ skipn k (f_file f)) by (unfold fl; now rewrite firstn_skipn).
+    assert (Hfl : oklog fl). { rewrite Hfile in Hf. apply oklog_app in Hf. tauto. }
+    rewrite Hfile in E at 1. apply agree_bytes in E. destruct E as [tb E].
+    destruct (records_of_bytes fl l tb Hfl Hl E) as [rest Hrest].
+    destruct Hres as [-> | [-> Hall]].
+    - assert (D : drop_bytes l (flen fl) = Some rest)
+        by (rewrite Hrest; apply drop_bytes_app; apply Hfl).
       rewrite D. cbn.
-      split; [unfold synced; cbn; repeat split; auto; intros; lia | eexists; split; reflexivity].
-    - assert (Wf : wf_log (f_file f)). { rewrite Hl in W. apply wf_log_app in W. tauto. }
-      assert (D : drop_bytes l (f_aofsz f) = Some rest)
-        by (rewrite Hsz; rewrite Hl; rewrite <- Hl at 1; rewrite Hl at 1; apply drop_bytes_app; exact Wf).
+      split; [unfold synced; cbn; repeat split; auto; intros; lia |
+              split; [unfold wf_fol; cbn; repeat split; auto; apply Hfl | eexists; split; reflexivity]].
+    - assert (Hnil : skipn k (f_file f) = []).
+      { apply flen_zero_nil.
+        - rewrite Hfile in Hf. apply oklog_app in Hf. apply Hf.
+        - pose proof (flen_app fl (skipn k (f_file f))) as Ha. rewrite <- Hfile in Ha. lia. }
+      assert (Hwhole : f_file f = fl) by (rewrite Hfile, Hnil; now rewrite app_nil_r).
+      assert (D : drop_bytes l (flen (f_file f)) = Some rest)
+        by (rewrite Hwhole, Hrest; apply drop_bytes_app; apply Hfl).
       rewrite D. cbn.
-      split; [unfold synced; cbn; repeat split; auto; intros; lia | eexists; split; reflexivity].
+      split; [unfold synced; cbn; repeat split; auto; try (rewrite Hwhole; exact Hrest); intros; lia |
+              split; [unfold wf_fol; cbn; repeat split; auto; apply Hf | eexists; split; reflexivity]].
   Qed.
 
   Lemma deliver_synced : forall l f, upd_ok l -> synced l f -> synced l (deliver f).
@@ -485,12 +605,26 @@ Section Protocol.
       destruct E as [E _]. eapply U; eauto.
   Qed.
 
+  Lemma synced_wf : forall l f s, oklog l -> synced l f -> f_ses f = Some s -> wf_fol f.
+  Proof.
+    intros l f s Hl (Hm & Hsz & Hx) Es. rewrite Es in Hx. destruct Hx as (E & _).
+    rewrite E in Hl. apply oklog_app in Hl. unfold wf_fol. tauto.
+  Qed.
+
+  Lemma deliver_keeps_session : forall f s, f_ses f = Some s -> f_ses (deliver f) <> None.
+  Proof.
+    intros f s Es. unfold Follow.deliver. rewrite Es.
+    destruct (s_rest s); [congruence|]. destruct (app r (f_mem f)). cbn. discriminate.
+  Qed.
+
+  (* what the environment may do: the leader logs only updating, well-framed commands; a shrunk log
+     is a well-framed log that replays with every record updating.  NOTHING is required of the
+     follower or of the moments at which it connects. *)
   Definition ev_ok (w : file * fol) (e : event) : Prop :=
     let '(l, f) := w in
     match e with
-    | EConnect => prefix_cond l f \/ startover_cond l f
-    | EAppend r => snd (app r (replay l)) = true /\ 0 < blen r
-    | EShrink l' => upd_ok l' /\ wf_log l'
+    | EAppend r => snd (app r (replay l)) = true /\ 0 < blen r /\ okrec r
+    | EShrink l' => upd_ok l' /\ oklog l'
     | _ => True
     end.
 
@@ -503,21 +637,31 @@ Section Protocol.
   Lemma step_inv : forall l f e, ev_ok (l, f) e -> inv l f ->
     inv (fst (step Repaired (l, f) e)) (snd (step Repaired (l, f) e)).
   Proof.
-    intros l f e Hok (U & W & Hs). destruct e; cbn [Follow.step fst snd].
-    - (* begin *) repeat split; auto.
-    - (* connect *) split; [exact U|]. split; [exact W|]. right. apply connect_synced; assumption.
+    intros l f e Hok (U & W & Hwf & Hs). destruct e; cbn [Follow.step fst snd].
+    - (* begin *) split; [exact U|split; [exact W|split; [exact Hwf|now left]]].
+    - (* connect *) destruct (connect_synced l f W Hwf) as (H1 & H2 & _).
+      split; [exact U|split; [exact W|split; [exact H2|now right]]].
     - (* deliver *) split; [exact U|]. split; [exact W|].
-      destruct Hs as [Hn|Hs]; [left; unfold Follow.deliver; now rewrite Hn | right; now apply deliver_synced].
-    - repeat split; auto.
-    - repeat split; auto.
-    - repeat split; auto.
-    - (* append *) destruct Hok as [Hu Hb]. split; [now apply upd_ok_snoc|].
-      split; [apply wf_log_app; split; [exact W | repeat constructor; exact Hb]|].
-      unfold leader_append. destruct (f_ses f) as [s|] eqn:Es; [|now left].
+      destruct Hs as [Hn|Hs].
+      + unfold Follow.deliver. rewrite Hn. auto.
+      + pose proof (deliver_synced l f U Hs) as Hd.
+        destruct (f_ses f) as [s|] eqn:Es.
+        * destruct (f_ses (deliver f)) as [s'|] eqn:Es'; [|exfalso; eapply deliver_keeps_session; eauto].
+          split; [eapply synced_wf; eauto | now right].
+        * unfold Follow.deliver. rewrite Es. auto.
+    - (* drop *) split; [exact U|split; [exact W|split; [exact Hwf|now left]]].
+    - (* restart *) destruct Hwf as (Hm & Hsz & Hf).
+      split; [exact U|split; [exact W|split; [|now left]]].
+      unfold wf_fol. cbn. split; [reflexivity|split; [reflexivity|exact Hf]].
+    - (* pause *) split; [exact U|split; [exact W|split; [exact Hwf|exact Hs]]].
+    - (* append *) destruct Hok as (Hu & Hb & Hr). split; [now apply upd_ok_snoc|].
+      split; [apply oklog_app; split; [exact W | split; repeat constructor; assumption]|].
+      unfold leader_append. destruct (f_ses f) as [s|] eqn:Es; [|split; [exact Hwf | now left]].
+      split; [exact Hwf|].
       right. destruct Hs as [Hn|(Hm & Hsz & Hx)]; [discriminate|]. rewrite Es in Hx.
       destruct Hx as (Hl & Hc & Hcu). unfold synced. cbn. repeat split; auto.
       rewrite Hl. now rewrite app_assoc.
-    - (* shrink *) destruct Hok as [Hu Hw]. repeat split; auto.
+    - (* shrink *) destruct Hok as [Hu Hw]. split; [exact Hu|split; [exact Hw|split; [exact Hwf|now left]]].
   Qed.
 
   Lemma run_inv : forall es l f, ok_trace (l, f) es -> inv l f ->
@@ -530,17 +674,17 @@ Section Protocol.
     apply (IH l' f' H2 Hi').
   Qed.
 
-  (* convergence: from ANY follower state, over ANY event sequence whose connects are not in the
-     blind spot: once the stream has been handled completely the follower's dataset is the replay
-     of the leader's log, its log file is identical to the leader's, and aofsz is its size *)
+  (* convergence: from ANY follower (any log content, dataset = replay of that log), over ANY event
+     sequence: once the stream has been handled completely the follower's dataset is the replay of the
+     leader's log, its log file is identical to the leader's, and aofsz is its size *)
   Lemma converge : forall l0 f0 es,
-    upd_ok l0 -> wf_log l0 -> f_ses f0 = None -> ok_trace (l0, f0) es ->
+    upd_ok l0 -> oklog l0 -> wf_fol f0 -> f_ses f0 = None -> ok_trace (l0, f0) es ->
     forall l f, run Repaired (l0, f0) es = (l, f) -> drained f = true ->
     f_mem f = replay l /\ f_file f = l /\ f_aofsz f = flen l.
   Proof.
-    intros l0 f0 es U W Hn Hok l f Hr Hd.
-    pose proof (run_inv es l0 f0 Hok (conj U (conj W (or_introl Hn)))) as Hi.
-    rewrite Hr in Hi. cbn [fst snd] in Hi. destruct Hi as (_ & _ & Hs).
+    intros l0 f0 es U W Hwf Hn Hok l f Hr Hd.
+    pose proof (run_inv es l0 f0 Hok (conj U (conj W (conj Hwf (or_introl Hn))))) as Hi.
+    rewrite Hr in Hi. cbn [fst snd] in Hi. destruct Hi as (_ & _ & _ & Hs).
     unfold drained in Hd. destruct (f_ses f) as [s|] eqn:Es; [|discriminate].
     destruct (s_rest s) eqn:R; [|discriminate].
     destruct Hs as [Hs|(Hm & Hsz & Hx)]; [discriminate|]. rewrite Es, R, app_nil_r in Hx.
@@ -603,24 +747,25 @@ Section Protocol.
     Forall handshake_event es -> f_cup (snd (run md (step md (l, f) EBegin) es)) = false.
   Proof. intros md l f es Hes. cbn [Follow.step]. apply reconnecting_flag; auto. Qed.
 
+  (* l1 = the leader's log when the follower (re)connects, from ANY state of the follower *)
   Lemma not_premature : forall l1 f1 es,
-    upd_ok l1 -> wf_log l1 -> prefix_cond l1 f1 \/ startover_cond l1 f1 ->
+    upd_ok l1 -> oklog l1 -> wf_fol f1 ->
     Forall session_event es -> ok_trace (step Repaired (l1, f1) EConnect) es ->
     forall l f, run Repaired (step Repaired (l1, f1) EConnect) es = (l, f) ->
     f_cup f = true ->
     exists extra, f_file f = l1 ++ extra /\ f_mem f = replay (f_file f).
   Proof.
-    intros l1 f1 es U W Hc Hes Hok l f Hr Hcup.
+    intros l1 f1 es U W Hwf Hes Hok l f Hr Hcup.
     cbn [Follow.step] in Hok, Hr.
-    destruct (connect_synced l1 f1 W Hc) as (Hs & s & Es & Ha).
-    assert (Hi : inv l1 (connect Repaired l1 f1)) by (repeat split; auto).
+    destruct (connect_synced l1 f1 W Hwf) as (Hs & Hwf' & s & Es & Ha).
+    assert (Hi : inv l1 (connect Repaired l1 f1)) by (repeat split; auto; apply Hwf' || apply W).
     assert (Hin : insession l1 l1 (connect Repaired l1 f1)).
     { split; [exact Hs|]. exists s, []. rewrite app_nil_r. auto. }
     destruct (insession_run l1 es _ _ Hes Hok Hi Hin l f Hr) as ((_ & Wl & _) & (Hm & Hsz & Hx) & s' & x & Es' & Ha' & Hl).
     rewrite Es' in Hx. destruct Hx as (Hl' & Hcu & Hle).
     rewrite Hcup in Hcu. symmetry in Hcu. specialize (Hle Hcu).
     assert (E : l1 ++ x = f_file f ++ s_rest s') by congruence.
-    destruct (prefix_compare l1 (f_file f) x (s_rest s') E) as [extra Hx]; [rewrite <- Hl; exact Wl | lia |].
+    destruct (prefix_compare l1 (f_file f) x (s_rest s') E) as [extra Hx]; [rewrite <- Hl; apply Wl | lia |].
     exists extra. auto.
   Qed.
 End Protocol.
